@@ -192,3 +192,108 @@ func HarnessCloseDuringWrite() {
 	monitors("")
 	verif.Reach("close-during-write-done")
 }
+
+type CSub struct {
+	Echo func(ctx context.Context, tok int64) (int64, error)
+	Sub  func(ctx context.Context) (<-chan int64, error)
+}
+
+// HarnessCancelVsCall: on one client connection the cancellation of an open
+// subscription (written by its own goroutine) and new calls (written by the
+// connection loop) are issued at arbitrary instants relative to one another.
+// The peer receives each of them as one complete frame with exactly the content
+// that was sent: one cancel notification naming the subscription's request, and
+// every call with its own token.
+func HarnessCancelVsCall() {
+	l := verif.ListenWS()
+	var frames []wireReq
+	bad := 0
+	go func() {
+		verif.Daemon()
+		pc := l.Accept()
+		for {
+			b, ok := pc.Recv()
+			if !ok {
+				return
+			}
+			var r wireReq
+			if json.Unmarshal(b, &r) != nil || r.Jsonrpc != "2.0" {
+				bad++
+				continue
+			}
+			frames = append(frames, r)
+			switch r.Method {
+			case "NS.Sub":
+				rb, _ := json.Marshal(map[string]interface{}{"jsonrpc": "2.0", "id": r.ID, "result": 1})
+				pc.Send(rb)
+			case "NS.Echo":
+				rb, _ := json.Marshal(map[string]interface{}{"jsonrpc": "2.0", "id": r.ID, "result": r.Params[0]})
+				pc.Send(rb)
+			}
+		}
+	}()
+	var c CSub
+	closer, err := jsonrpc.NewMergeClient(context.Background(), l.URL(), "NS", []interface{}{&c}, nil, jsonrpc.WithNoReconnect())
+	verif.Assert(err == nil, "client-created")
+	sctx, cancelSub := context.WithCancel(context.Background())
+	ch, serr := c.Sub(sctx)
+	verif.Assert(serr == nil && ch != nil, "subscription-established")
+	go func() {
+		for range ch {
+		}
+	}()
+	verif.Quiesce()
+	n := verif.Bound("N", 2)
+	toks := make([]int64, n)
+	rets := make([]int, n)
+	for i := 0; i < n; i++ {
+		i := i
+		toks[i] = verif.Int("tok" + string(rune('0'+i)))
+		go func() {
+			verif.AtStep("call_at"+string(rune('0'+i)), verif.Bound("steps", 8))
+			v, err := c.Echo(context.Background(), toks[i])
+			if err == nil && v == toks[i] {
+				rets[i]++
+			}
+		}()
+	}
+	go func() {
+		verif.AtStep("cancel_at", verif.Bound("steps", 8))
+		cancelSub()
+	}()
+	verif.Quiesce()
+	verif.Assert(bad == 0, "every-message-is-one-complete-json-rpc-frame")
+	subID := ""
+	cancels, echoes := 0, 0
+	for _, f := range frames {
+		switch f.Method {
+		case "NS.Sub":
+			subID = string(f.ID)
+		case "xrpc.cancel":
+			cancels++
+			verif.Assert(len(f.Params) == 1 && string(f.Params[0]) == subID, "cancel-frame-intact")
+		case "NS.Echo":
+			var t int64
+			ok := len(f.Params) == 1 && json.Unmarshal(f.Params[0], &t) == nil
+			found := false
+			for _, want := range toks {
+				if ok && t == want {
+					found = true
+				}
+			}
+			verif.Assert(found, "call-frame-intact")
+			echoes++
+		default:
+			verif.Assert(false, "only-frames-that-were-sent")
+		}
+	}
+	verif.Assert(cancels == 1, "exactly-one-cancel-frame")
+	verif.Assert(echoes == n, "every-call-frame-arrives")
+	for i := 0; i < n; i++ {
+		verif.Assert(rets[i] == 1, "every-call-completes-with-its-own-result")
+	}
+	monitors("")
+	closer()
+	verif.Quiesce()
+	verif.Reach("cancel-vs-call-done")
+}
